@@ -17,7 +17,22 @@ from fractions import Fraction
 from harness import common as C
 from harness import impl
 
+from harness.translate import t9_leapfrog
+
 PID = "C16"
+
+
+def sync():
+    """gen/G_leapfrog.v: the arithmetic of LeapfrogIntegrator.__call__ regenerated from the source (T9)"""
+    import os
+    try:
+        txt = t9_leapfrog.translate()
+    except t9_leapfrog.TranslateError as e:
+        return False, f"T9 translator (LeapfrogIntegrator.__call__): {e}"
+    with C.CoqLock():
+        C.write_if_changed(os.path.join(C.COQ, "gen", "G_leapfrog.v"), txt)
+    return True, txt
+
 # exact dyadic mantissas after 30 steps have more than 4300 decimal digits (python's default parsing limit)
 sys.set_int_max_str_digits(0)
 HEADER = ("From Coq Require Import QArith ZArith List. Import ListNotations.\n"
@@ -1042,7 +1057,18 @@ def run(tier, seed, replay=None):
 
     # a broken proof must not hide behind an already listed finding: only NEW failing inputs explain it
     known = {k["key"] for k in C.load_known() if k["property"] == PID and k.get("status") == "known"}
-    C.handle_proof(rep, PID, lambda: [f for f in search() if f[0] not in known])
+    ok_sync, info = sync()
+    if not ok_sync:
+        # the source no longer has the shape the regenerated arithmetic is read from: the theorem that ties the model
+        # to it is not re-checked; search the implementation for a failing input, report either way
+        rep.proof = dict(obligations=1, discharged=0, axioms={}, theorems=["T9 translation"], ok=False)
+        fs = [f for f in search() if f[0] not in known]
+        for f in fs:
+            rep.violation(*f)
+        if not fs:
+            rep.violation("C16:translator-failed", str(info)[:400], dict(error=str(info), broken="T9 / prop/C16.v:C16_integrator_source_is_model"), False)
+    else:
+        C.handle_proof(rep, PID, lambda: [f for f in search() if f[0] not in known])
     for f in search():
         rep.violation(*f)
     results = collect()
